@@ -68,6 +68,29 @@ DESC.update({
  "C10-r2b": ("toJsonValue shortcut does not look into nested arrays", "JS transform writing an array of arrays of whole numbers, second run"),
 })
 
+DESC.update({
+ "C11-r2a": ("parseTransform returns a typed-nil transform for a JavascriptTransform block without Code", "a job whose transform block has a Type but no Code: accepted, the run dereferences nil"),
+ "C11-r2b": ("instrumentErrorHandling moved before the ticket check (as C17-a)", "a refused second request for a running job with a log handler, arriving after a rejected batch and before an accepted one"),
+ "C12-r2a": ("compaction takes the dataset write lock only around the pointer rewrite at the end of a flush", "a writer commits between the flush transaction's snapshot and its lock"),
+ "C12-r2b": ("forEntity iterates with the entity prefix instead of the (dataset, entity) prefix", "the compacted entity also lives in a dataset with a higher internal id"),
+ "C13-r2a": ("getURLParts trims a trailing slash before splitting", "a URI with an empty local part (ends in /)"),
+ "C13-r2b": ("persist-error branch of AssertPrefixMappingForExpansion deletes only the prefix entry", "a storage write error while a new namespace is persisted, then another new namespace (the branch was rewritten by fix 124b092; the equivalent change on the fixed tree is mutants/C13/half-rollback.diff)"),
+ "C14-r2a": ("rename stores a bare dataset record (name + ids) for the new name", "rename of a proxy / virtual / public-namespace dataset, then restart"),
+ "C14-r2b": ("security state files written without O_TRUNC", "an ACL / client file that shrinks, then restart"),
+ "C15-r2a": ("an empty reference array is serialised as null", "entity with \"refs\":{\"r\":[]} posted and read back"),
+ "C15-r2b": ("POST handler takes parsers from a sync.Pool that keeps key mappings (as C01-r2a)", "two POSTs whose contexts bind one prefix differently"),
+ "C16-r2a": ("a matching deny entry clears its own Deny flag after the first evaluation", "two requests under one ACL with a deny entry"),
+ "C16-r2b": ("the ACL middleware evaluates the escaped path (EscapedPath) instead of the decoded one", "a percent-encoded letter in a dataset segment: /datasets/%61/entities"),
+ "C17-r2a": ("bisection guard counts splits per run (limit 32) instead of depth", "a run with more than 32 bisections (many batches with one rejected entity each)"),
+ "C17-r2b": ("the kill sentinel error is returned by the incremental pipeline only", "a fullsync run of a job with a reRun handler is killed"),
+ "C18-r2a": ("the previous-run lookup (GetChanges(since,1,...)) honours the source's LatestOnly", "LatestOnly job, first outgoing hop rewired, the change at token-1 superseded"),
+ "C18-r2b": ("watermarks re-captured on every page while fewer watermarks than dependencies", "two dependency paths from one dataset + a dependency write between two pages of the first fullsync"),
+ "C19-r2a": ("DeleteDataset unregisters the dataset from the in-memory maps last", "dataset with public namespaces, delete (tombstone write re-creates the record), restart"),
+ "C19-r2b": ("ExecuteTransaction releases the dataset locks before the items-counter updates", "a transaction and a batch on the same dataset, both adding new ids"),
+ "C20-r2a": ("Store.Delete removes the badger files but keeps DATAHUB_BACKUPID", "write, backup, DELETE /datasets, restart, write, backup, restore"),
+ "C20-r2b": ("badger opened with CompactL0OnClose", "backup, restart, delete dataset, restart, backup: the appended dump lacks the tombstones"),
+})
+
 rows = []
 for d in sorted(glob.glob('/verif/seeded/*/meta.json')):
     m = json.load(open(d))
